@@ -67,7 +67,11 @@ pub struct Shared {
     pub deliveries: Vec<(u64, u64, Duration)>,
     pub eof_delivered: bool,
     pub err_delivered: Option<std::io::ErrorKind>,
+    pub spin_detected: bool,
 }
+
+/// read polls without any progress (no byte, no timer, no error) before we call it a spin
+pub const SPIN_LIMIT: u64 = 50_000;
 
 #[derive(Clone)]
 pub struct Handle(pub Arc<Mutex<Shared>>);
@@ -97,6 +101,7 @@ pub fn sim_io(script: Vec<In>, seq: Seq) -> (SimIo, Handle) {
         deliveries: vec![],
         eof_delivered: false,
         err_delivered: None,
+        spin_detected: false,
     }));
     (
         SimIo {
@@ -153,6 +158,13 @@ impl AsyncRead for SimIo {
         let s = &mut *guard;
         s.read_polls += 1;
         s.read_polls_since_progress += 1;
+        if s.read_polls_since_progress > SPIN_LIMIT {
+            // the caller keeps polling without consuming anything and without yielding to a
+            // timer: break the loop and report it
+            s.spin_detected = true;
+            s.read_polls_since_progress = 0;
+            return Poll::Ready(Err(std::io::Error::other("verif: spin detected")));
+        }
         if s.read_polls_since_progress > s.max_read_polls_without_progress {
             s.max_read_polls_without_progress = s.read_polls_since_progress;
         }
